@@ -511,6 +511,10 @@ long abtv_syscall(long no, ...)
     int val = va_arg(ap, int);
     struct timespec *ts = va_arg(ap, struct timespec *);
     va_end(ap);
+    /* like the kernel, keep process-private and shared futexes apart: a FUTEX_WAKE_PRIVATE does
+     * not find a thread that sleeps in a plain FUTEX_WAIT on the same address, and vice versa
+     * (futex words are 4-byte aligned, so address + 1 is a free key for the shared kind) */
+    const void *key = (op & FUTEX_PRIVATE_FLAG) ? (const void *)addr : (const void *)((const char *)addr + 1);
     op &= ~FUTEX_PRIVATE_FLAG;
     SP('S', "futex");
     if (op == FUTEX_WAIT) {
@@ -524,7 +528,7 @@ long abtv_syscall(long no, ...)
             if (dl <= G.now)
                 dl = G.now + 1;
         }
-        int r = sim_block(WK_FUTEX, addr, dl ? dl + timer_slack() : 0);
+        int r = sim_block(WK_FUTEX, key, dl ? dl + timer_slack() : 0);
         if (r == WR_TIMEOUT) {
             errno = ETIMEDOUT;
             return -1;
@@ -539,12 +543,12 @@ long abtv_syscall(long no, ...)
         int n = 0;
         if (val >= SIM_MAXT) {
             for (int i = 0; i < G.nT; i++)
-                if (G.T[i].state == ST_BLOCKED && G.T[i].wait_kind == WK_FUTEX && G.T[i].wait_addr == addr) {
+                if (G.T[i].state == ST_BLOCKED && G.T[i].wait_kind == WK_FUTEX && G.T[i].wait_addr == key) {
                     sim_wake(i, WR_WAKE);
                     n++;
                 }
         } else {
-            while (n < val && wake_one_on(WK_FUTEX, addr))
+            while (n < val && wake_one_on(WK_FUTEX, key))
                 n++;
         }
         return n;
